@@ -124,6 +124,8 @@ macro_rules! combine_impls {
                         let [<source_ $idx>] = self.$idx.into_arc_source();
                     )+
                     (move |message| {
+                        #[cfg(callbag_verif)]
+                        use crate::verif::sync::{ArcSwap, ArcSwapOption, AtomicUsize};
                         instrument!(
                             follows_from: &combine_fn_span,
                             "combine",
